@@ -279,6 +279,10 @@ Definition expected_cli_action (m : meaning) : option string :=
   | KxDHE => Some "DHE_RSAKeyExchange" | KxECDHE => Some "ECDHE_RSAKeyExchange"
   | _ => None
   end.
+Definition name_has_certificate (m : meaning) : bool :=
+  match m_auth m with AuRSA | AuDSS | AuECDSA => true | _ => false end.
+Definition name_has_signed_ske (m : meaning) : bool :=
+  name_has_certificate m && match m_kx m with KxDHE | KxECDHE | KxSRP => true | _ => false end.
 (* versions <= TLS 1.2 only: TLS 1.3 has one key exchange for all suites *)
 Definition chk_dispatch (s : Z) : bool :=
   match meaning_of s with
@@ -288,6 +292,13 @@ Definition chk_dispatch (s : Z) : bool :=
       | Some a, Some b => String.eqb (gen_srv_dispatch s) a && String.eqb (gen_cli_dispatch s) b
       | _, _ => false
       end
+      (* the client's message plan (_clientKeyExchange interpreted over the suite, from the ast): it waits for a
+         Certificate iff the name denotes certificate authentication, for a ServerKeyExchange iff the key exchange
+         is not RSA key transport, and verifies the ServerKeyExchange signature iff the name denotes a signed
+         (EC)DHE or SRP exchange *)
+      && Bool.eqb (gen_cli_gets_certificate s) (name_has_certificate m)
+      && Bool.eqb (gen_cli_gets_ske s) (negb (kx_is KxRSA m))
+      && Bool.eqb (gen_cli_verifies_ske_signature s) (name_has_signed_ske m)
   | None => false
   end.
 
